@@ -100,6 +100,10 @@ class C14(Prop):
                                       for _ in range(rng.choice([0, 2, 3])))
             yield Case('reshape', ('unpack', rng.choice(['v', 1]), rng.choice([('p', 'q'), ('p',), ()]), rng.random() < 0.4,
                                    rng.choice([None, 'M']), u))
+            # an earlier cell equal to the unpacked one (the unpacked cell is removed by position, not by value)
+            seqs = [(1, 2), (1,), ('q', 2)]
+            u2 = (('k', 'm', 'v'),) + tuple((rng.choice(seqs), rng.choice([0, 'z']), rng.choice(seqs)) for _ in range(rng.choice([2, 3])))
+            yield Case('reshape', ('unpack', 'v', ('p', 'q'), False, None, u2))
             sd = (('k', 'v'),) + tuple((rng.choice(['a-b', 'a', '', 'x-y-z', '-']), rng.choice([1, 2]))
                                        for _ in range(rng.choice([0, 2, 3])))
             yield Case('reshape', ('splitdown', rng.choice(['k', 0]), ord('-'), sd))
